@@ -41,6 +41,11 @@ def generate_ops(rng, cfg, spec, tier) -> list[dict]:
         sd = rng.random() < 0.4
         op = {"op": "restart", "target": tgt, "codec": rng.choice(["direct", "netcdf", "netcdf", "zarr", "zarr"]),
               "save_data": sd, "second_rebuild": rng.random() < 0.35}
+        if op["codec"] != "direct" and rng.random() < 0.35:
+            # through the real entry points: model.save(path, engine=...) (which starts with compute()) and
+            # Model.load(path, engine=...), on the simulated disk
+            op["via"] = "save"
+            op["engine"] = "zarr" if op["codec"] == "zarr" else ("h5netcdf" if (spec.complex_input or spec.hilbert) else rng.choice(["netcdf4", "h5netcdf"]))
         if not sd:
             dataless[tgt] = True
         return op
@@ -122,7 +127,7 @@ def _opk(op):
     if k == "query":
         return f"q{op['target']}:{_qname(op['q'])}"
     if k == "restart":
-        return f"restart:{op['target']}:{op['codec']}:{'data' if op['save_data'] else 'nodata'}" + ("x2" if op.get("second_rebuild") else "")
+        return f"restart:{op['target']}:{op['codec']}:{'data' if op['save_data'] else 'nodata'}" + ("x2" if op.get("second_rebuild") else "") + ("/save" if op.get("via") else "")
     if k == "save":
         return f"save:{op['target']}:{op['codec']}"
     if k in ("compute", "compute_fault"):
@@ -191,7 +196,7 @@ def execute(cfg: dict, *, stop_at_first=True, trace=False) -> RunResult:
 
     A: dict = {"m": None, "r": None}
     B: dict = {"m": None, "r": None}
-    with core.simulated_ambient(clock), dask.config.set(scheduler=sim.get):
+    with core.simulated_ambient(clock), dask.config.set(scheduler=sim.get), store.SimDisk():
         core.ambient_event(seed, "start", clock)
         A["m"] = spec.cls()(**copy.deepcopy(cfg["params"]))
         B["m"] = spec.cls()(**copy.deepcopy(cfg["params"]))
@@ -231,19 +236,32 @@ def execute(cfg: dict, *, stop_at_first=True, trace=False) -> RunResult:
                 store_ = store.SimStore()
                 sd = op.get("save_data", False)
 
+                via_save = op.get("via") == "save"
+                path = f"sim://{op['id']}"
+
                 def do_put():
-                    store_.put(obj.serialize(), op["codec"], save_data=sd)
+                    if via_save:
+                        obj.save(path, overwrite=True, save_data=sd, engine=op["engine"])
+                    else:
+                        store_.put(obj.serialize(), op["codec"], save_data=sd)
+                if via_save:
+                    # save() starts with compute(): mirrored on the never-serialised twin
+                    with core.reference_context():
+                        oracle.capture(A[tgt].compute)
+                    cov["probes"].add("real save()/load() on the simulated disk")
+                    counts["real_saves"] = counts.get("real_saves", 0) + 1
                 out = oracle.capture(do_put)
                 if not out.ok and out.exc_type == "SimHarnessError":
                     raise sched.SimHarnessError(out.exc_msg)
                 if not out.ok:
                     violate("R0", f"put:{out.exc_type}", f"writing the serialised {tgt} through codec {op['codec']} raised {out.exc_type}: {out.exc_msg[:200]}", op)
                 else:
-                    out = oracle.capture(lambda: type(obj).deserialize(store_.get()))
+                    rebuild = (lambda: type(obj).load(path, engine=op["engine"])) if via_save else (lambda: type(obj).deserialize(store_.get()))
+                    out = oracle.capture(rebuild)
                     if out.ok and op.get("second_rebuild"):
                         # the stored state is read a second time (two loads of one file; two rebuilds from one
                         # tree object on the direct route): the second rebuild is the one that is kept
-                        out = oracle.capture(lambda: type(obj).deserialize(store_.get()))
+                        out = oracle.capture(rebuild)
                         cov["probes"].add("second rebuild from the same stored state")
                     if not out.ok:
                         violate("R0", f"get:{out.exc_type}", f"rebuilding {tgt} from the {op['codec']} store raised {out.exc_type}: {out.exc_msg[:200]}", op)
